@@ -201,7 +201,7 @@ func (s *sender) recvAck(ackNo uint32) (uint32, error) {
 		windowOpen = true
 	}
 
-	for s.ackNo < newAckNo {
+	for s.ackNo < newAckNo && len(s.frames) > 0 {
 		s.onSuccess(ackNo)
 		s.ackNo++
 		s.frames = s.frames[1:]
